@@ -202,6 +202,12 @@ def c19_3(ctx, ss):
             ds = flow.defs_of(e)
             return len(ds) == 1 and ds[0].kind == "assign" and ds[0].path == (1,) and ds[0].value is read[0]
         la = lines[0].args[0] if lines[0].args else None
+        while isinstance(la, ast.Name):            # the slice may be held in a local (hoisted out of the loop)
+            ds_ = flow.defs_of(la)
+            if len(ds_) == 1 and ds_[0].kind == "assign" and ds_[0].path == () and ds_[0].value is not None:
+                la = ds_[0].value
+            else:
+                break
         oka = is_states(intro[0].args[0]) and bool(lp) and txt(flow.expand(lp[0].iter)).startswith("enumerate(") \
             and isinstance(la, ast.Subscript) and is_states(la.value) and txt(la.slice) == "1:"
         (ctx.holds if oka else ctx.violation)("C19.3", k + " :: args", where(ff, ff.node),
